@@ -27,9 +27,10 @@ WKT_IMPORT = {"Timestamp": "google/protobuf/timestamp.proto", "Duration": "googl
 PACKAGES = ["", "a", "b", "a.b", "a.c", "a.b.c", "b.a", "pkg_x", "a.b.c.d", "x1", "Cap", "a.Up"]
 
 MSG_NAMES = {
-    "conventional": ["Item", "Outer", "Request", "Reply", "Config", "Node", "Point2D", "UserInfo"],
+    # UpStream / Bitem / b_item / c_node start like a (sub-)package component the generator also uses (a.Up, a.b, a.c)
+    "conventional": ["Item", "Outer", "Request", "Reply", "Config", "Node", "Point2D", "UserInfo", "UpStream", "Bitem"],
     "upper_run": ["HTTPStatus", "URLPath", "IOError2", "DBRow"],
-    "lower": ["lower", "snake_msg", "item_v2"],
+    "lower": ["lower", "snake_msg", "item_v2", "b_item", "c_node"],
     "underscore": ["_Lead", "Trail_", "Mid_Dle", "Dbl__Under"],
     # List / Dict / Optional are excluded by construction (known finding: they shadow the typing imports of the
     # generated module; probed separately by C03's fixed probe cases)
@@ -104,6 +105,7 @@ def schema_ast(draw, max_packages=3, services=True, markers=True):
                 used_norm.add(norm_name(prefix_path + name))
                 used_norm.add(norm_name(name))
                 m = {"name": name, "name_class": cls, "fields": [], "nested": [], "enums": [], "oneofs": [], "marker": nxt() if markers else None,
+                     "deprecated": draw(st.integers(0, 11)) == 0,
                      "comment": draw(st.sampled_from(["", "", "a message", "multi\nline comment", 'quote " and \\ backslash', "x" * 90, 'ends with a quote "',
                                                           'has \"\"\" inside', "ends with a backslash \\", "tab\there"]))}
                 if depth < 2 and draw(st.integers(0, 2)) == 0:
@@ -154,7 +156,8 @@ def schema_ast(draw, max_packages=3, services=True, markers=True):
                                     min_size=n, max_size=n, unique=True))
         oneofs = []
         if n >= 2 and draw(st.integers(0, 2)) == 0:
-            oneofs = draw(st.lists(st.sampled_from(["choice", "kind_of", "payload_type", "o"]), min_size=1, max_size=2, unique=True))
+            oneofs = draw(st.lists(st.sampled_from(["choice", "kind_of", "payload_type", "o", "payloadKind", "Target", "_lead_group", "import", "HTTPBody"]),
+                                   min_size=1, max_size=2, unique_by=norm_name))
         m["oneofs"] = oneofs
         for i in range(n):
             cls, fname = draw(_pool(FIELD_NAMES).filter(lambda t: norm_name(t[1]) not in names_used))
@@ -167,7 +170,8 @@ def schema_ast(draw, max_packages=3, services=True, markers=True):
             kind, t = draw(st.one_of(*cands))
             label = draw(st.sampled_from(["single", "single", "optional", "repeated", "map", "oneof" if oneofs else "single"]))
             f = {"name": fname, "name_class": cls, "number": number_pool[i], "kind": kind, "type": t, "label": label,
-                 "comment": draw(st.sampled_from(["", "", "", "field comment", 'say "hi"', "path C:\\dir\\"]))}
+                 "comment": draw(st.sampled_from(["", "", "", "field comment", 'say "hi"', "path C:\\dir\\"])),
+                 "deprecated": draw(st.integers(0, 7)) == 0}
             if label == "map":
                 f["key"] = draw(st.sampled_from(KEY_TYPES))
                 if kind == "wkt" and t.endswith("Value"):
@@ -229,6 +233,8 @@ def _field_type(f):
 def _render_msg(m, indent):
     s = _comment(m.get("comment", ""), indent) + f"{indent}message {m['name']} {{\n"
     ind = indent + "  "
+    if m.get("deprecated"):
+        s += f"{ind}option deprecated = true;\n"
     for e in m["enums"]:
         s += _render_enum(e, ind)
     for n in m["nested"]:
@@ -237,21 +243,22 @@ def _render_msg(m, indent):
     for f in plain:
         s += _comment(f.get("comment", ""), ind)
         t = _field_type(f)
+        opt = " [deprecated = true]" if f.get("deprecated") else ""
         if f["label"] == "map":
-            s += f"{ind}map<{f['key']}, {t}> {f['name']} = {f['number']};\n"
+            s += f"{ind}map<{f['key']}, {t}> {f['name']} = {f['number']}{opt};\n"
         elif f["label"] == "repeated":
-            s += f"{ind}repeated {t} {f['name']} = {f['number']};\n"
+            s += f"{ind}repeated {t} {f['name']} = {f['number']}{opt};\n"
         elif f["label"] == "optional":
-            s += f"{ind}optional {t} {f['name']} = {f['number']};\n"
+            s += f"{ind}optional {t} {f['name']} = {f['number']}{opt};\n"
         else:
-            s += f"{ind}{t} {f['name']} = {f['number']};\n"
+            s += f"{ind}{t} {f['name']} = {f['number']}{opt};\n"
     for g in m["oneofs"]:
         members = [f for f in m["fields"] if f["label"] == "oneof" and f.get("oneof") == g]
         if not members:
             continue
         s += f"{ind}oneof {g} {{\n"
         for f in members:
-            s += f"{ind}  {_field_type(f)} {f['name']} = {f['number']};\n"
+            s += f"{ind}  {_field_type(f)} {f['name']} = {f['number']}{' [deprecated = true]' if f.get('deprecated') else ''};\n"
         s += f"{ind}}}\n"
     if m.get("marker"):
         s += f"{ind}int32 mk{m['marker']} = {m['marker']};\n"
